@@ -66,8 +66,11 @@ def build():
     MODE['internal'] = True
     MODE['internal_error'] = ''
     env['RUSTFLAGS'] = '--cfg openbangla_riti_verif --cfg openbangla_riti_verif_internal -A warnings'
-    p = subprocess.run(['cargo', 'build', '--offline', '--release', '--example', 'verif_driver'],
-                       cwd=d, env=env, capture_output=True, text=True)
+    if os.environ.get('VERIF_FORCE_API'):   # testing aid: behave as if the private hooks did not compile
+        p = subprocess.CompletedProcess([], 1, '', 'VERIF_FORCE_API')
+    else:
+        p = subprocess.run(['cargo', 'build', '--offline', '--release', '--example', 'verif_driver'],
+                           cwd=d, env=env, capture_output=True, text=True)
     if p.returncode != 0:
         MODE['internal'] = False
         MODE['internal_error'] = p.stderr[-1500:]
